@@ -62,8 +62,16 @@ func init() {
 		fields: func(d *D) (uint64, [5]E) {
 			return d.Cardinality, [5]E{d.CardinalityInv, d.Generator, d.GeneratorInv, d.FrMultiplicativeGen, d.FrMultiplicativeGenInv}
 		},
-		writeTo:   func(d *D, w io.Writer) (int64, error) { return d.WriteTo(w) },
-		readFrom:  func(r io.Reader) (*D, int64, error) { d := new(D); n, err := d.ReadFrom(r); return d, n, err },
+		writeTo:  func(d *D, w io.Writer) (int64, error) { return d.WriteTo(w) },
+		readFrom: func(r io.Reader) (*D, int64, error) { d := new(D); n, err := d.ReadFrom(r); return d, n, err },
+		readInto: func(d *D, r io.Reader) (int64, error) { return d.ReadFrom(r) },
+		tables: func(d *D) (ct, cti []E, tw, twi [][]E) {
+			ct, _ = d.CosetTable()
+			cti, _ = d.CosetTableInv()
+			tw, _ = d.Twiddles()
+			twi, _ = d.TwiddlesInv()
+			return
+		},
 		generator: fft_bn254.Generator,
 		mulGen:    fft_bn254.GeneratorFullMultiplicativeGroup,
 	})
@@ -105,8 +113,16 @@ func init() {
 		fields: func(d *D) (uint64, [5]E) {
 			return d.Cardinality, [5]E{d.CardinalityInv, d.Generator, d.GeneratorInv, d.FrMultiplicativeGen, d.FrMultiplicativeGenInv}
 		},
-		writeTo:   func(d *D, w io.Writer) (int64, error) { return d.WriteTo(w) },
-		readFrom:  func(r io.Reader) (*D, int64, error) { d := new(D); n, err := d.ReadFrom(r); return d, n, err },
+		writeTo:  func(d *D, w io.Writer) (int64, error) { return d.WriteTo(w) },
+		readFrom: func(r io.Reader) (*D, int64, error) { d := new(D); n, err := d.ReadFrom(r); return d, n, err },
+		readInto: func(d *D, r io.Reader) (int64, error) { return d.ReadFrom(r) },
+		tables: func(d *D) (ct, cti []E, tw, twi [][]E) {
+			ct, _ = d.CosetTable()
+			cti, _ = d.CosetTableInv()
+			tw, _ = d.Twiddles()
+			twi, _ = d.TwiddlesInv()
+			return
+		},
 		generator: fft_bls12377.Generator,
 		mulGen:    fft_bls12377.GeneratorFullMultiplicativeGroup,
 	})
@@ -148,8 +164,16 @@ func init() {
 		fields: func(d *D) (uint64, [5]E) {
 			return d.Cardinality, [5]E{d.CardinalityInv, d.Generator, d.GeneratorInv, d.FrMultiplicativeGen, d.FrMultiplicativeGenInv}
 		},
-		writeTo:   func(d *D, w io.Writer) (int64, error) { return d.WriteTo(w) },
-		readFrom:  func(r io.Reader) (*D, int64, error) { d := new(D); n, err := d.ReadFrom(r); return d, n, err },
+		writeTo:  func(d *D, w io.Writer) (int64, error) { return d.WriteTo(w) },
+		readFrom: func(r io.Reader) (*D, int64, error) { d := new(D); n, err := d.ReadFrom(r); return d, n, err },
+		readInto: func(d *D, r io.Reader) (int64, error) { return d.ReadFrom(r) },
+		tables: func(d *D) (ct, cti []E, tw, twi [][]E) {
+			ct, _ = d.CosetTable()
+			cti, _ = d.CosetTableInv()
+			tw, _ = d.Twiddles()
+			twi, _ = d.TwiddlesInv()
+			return
+		},
 		generator: fft_bls12381.Generator,
 		mulGen:    fft_bls12381.GeneratorFullMultiplicativeGroup,
 	})
@@ -191,8 +215,16 @@ func init() {
 		fields: func(d *D) (uint64, [5]E) {
 			return d.Cardinality, [5]E{d.CardinalityInv, d.Generator, d.GeneratorInv, d.FrMultiplicativeGen, d.FrMultiplicativeGenInv}
 		},
-		writeTo:   func(d *D, w io.Writer) (int64, error) { return d.WriteTo(w) },
-		readFrom:  func(r io.Reader) (*D, int64, error) { d := new(D); n, err := d.ReadFrom(r); return d, n, err },
+		writeTo:  func(d *D, w io.Writer) (int64, error) { return d.WriteTo(w) },
+		readFrom: func(r io.Reader) (*D, int64, error) { d := new(D); n, err := d.ReadFrom(r); return d, n, err },
+		readInto: func(d *D, r io.Reader) (int64, error) { return d.ReadFrom(r) },
+		tables: func(d *D) (ct, cti []E, tw, twi [][]E) {
+			ct, _ = d.CosetTable()
+			cti, _ = d.CosetTableInv()
+			tw, _ = d.Twiddles()
+			twi, _ = d.TwiddlesInv()
+			return
+		},
 		generator: fft_bls24315.Generator,
 		mulGen:    fft_bls24315.GeneratorFullMultiplicativeGroup,
 	})
@@ -234,8 +266,16 @@ func init() {
 		fields: func(d *D) (uint64, [5]E) {
 			return d.Cardinality, [5]E{d.CardinalityInv, d.Generator, d.GeneratorInv, d.FrMultiplicativeGen, d.FrMultiplicativeGenInv}
 		},
-		writeTo:   func(d *D, w io.Writer) (int64, error) { return d.WriteTo(w) },
-		readFrom:  func(r io.Reader) (*D, int64, error) { d := new(D); n, err := d.ReadFrom(r); return d, n, err },
+		writeTo:  func(d *D, w io.Writer) (int64, error) { return d.WriteTo(w) },
+		readFrom: func(r io.Reader) (*D, int64, error) { d := new(D); n, err := d.ReadFrom(r); return d, n, err },
+		readInto: func(d *D, r io.Reader) (int64, error) { return d.ReadFrom(r) },
+		tables: func(d *D) (ct, cti []E, tw, twi [][]E) {
+			ct, _ = d.CosetTable()
+			cti, _ = d.CosetTableInv()
+			tw, _ = d.Twiddles()
+			twi, _ = d.TwiddlesInv()
+			return
+		},
 		generator: fft_bls24317.Generator,
 		mulGen:    fft_bls24317.GeneratorFullMultiplicativeGroup,
 	})
@@ -277,8 +317,16 @@ func init() {
 		fields: func(d *D) (uint64, [5]E) {
 			return d.Cardinality, [5]E{d.CardinalityInv, d.Generator, d.GeneratorInv, d.FrMultiplicativeGen, d.FrMultiplicativeGenInv}
 		},
-		writeTo:   func(d *D, w io.Writer) (int64, error) { return d.WriteTo(w) },
-		readFrom:  func(r io.Reader) (*D, int64, error) { d := new(D); n, err := d.ReadFrom(r); return d, n, err },
+		writeTo:  func(d *D, w io.Writer) (int64, error) { return d.WriteTo(w) },
+		readFrom: func(r io.Reader) (*D, int64, error) { d := new(D); n, err := d.ReadFrom(r); return d, n, err },
+		readInto: func(d *D, r io.Reader) (int64, error) { return d.ReadFrom(r) },
+		tables: func(d *D) (ct, cti []E, tw, twi [][]E) {
+			ct, _ = d.CosetTable()
+			cti, _ = d.CosetTableInv()
+			tw, _ = d.Twiddles()
+			twi, _ = d.TwiddlesInv()
+			return
+		},
 		generator: fft_bw6633.Generator,
 		mulGen:    fft_bw6633.GeneratorFullMultiplicativeGroup,
 	})
@@ -320,8 +368,16 @@ func init() {
 		fields: func(d *D) (uint64, [5]E) {
 			return d.Cardinality, [5]E{d.CardinalityInv, d.Generator, d.GeneratorInv, d.FrMultiplicativeGen, d.FrMultiplicativeGenInv}
 		},
-		writeTo:   func(d *D, w io.Writer) (int64, error) { return d.WriteTo(w) },
-		readFrom:  func(r io.Reader) (*D, int64, error) { d := new(D); n, err := d.ReadFrom(r); return d, n, err },
+		writeTo:  func(d *D, w io.Writer) (int64, error) { return d.WriteTo(w) },
+		readFrom: func(r io.Reader) (*D, int64, error) { d := new(D); n, err := d.ReadFrom(r); return d, n, err },
+		readInto: func(d *D, r io.Reader) (int64, error) { return d.ReadFrom(r) },
+		tables: func(d *D) (ct, cti []E, tw, twi [][]E) {
+			ct, _ = d.CosetTable()
+			cti, _ = d.CosetTableInv()
+			tw, _ = d.Twiddles()
+			twi, _ = d.TwiddlesInv()
+			return
+		},
 		generator: fft_bw6761.Generator,
 		mulGen:    fft_bw6761.GeneratorFullMultiplicativeGroup,
 	})
@@ -363,8 +419,16 @@ func init() {
 		fields: func(d *D) (uint64, [5]E) {
 			return d.Cardinality, [5]E{d.CardinalityInv, d.Generator, d.GeneratorInv, d.FrMultiplicativeGen, d.FrMultiplicativeGenInv}
 		},
-		writeTo:   func(d *D, w io.Writer) (int64, error) { return d.WriteTo(w) },
-		readFrom:  func(r io.Reader) (*D, int64, error) { d := new(D); n, err := d.ReadFrom(r); return d, n, err },
+		writeTo:  func(d *D, w io.Writer) (int64, error) { return d.WriteTo(w) },
+		readFrom: func(r io.Reader) (*D, int64, error) { d := new(D); n, err := d.ReadFrom(r); return d, n, err },
+		readInto: func(d *D, r io.Reader) (int64, error) { return d.ReadFrom(r) },
+		tables: func(d *D) (ct, cti []E, tw, twi [][]E) {
+			ct, _ = d.CosetTable()
+			cti, _ = d.CosetTableInv()
+			tw, _ = d.Twiddles()
+			twi, _ = d.TwiddlesInv()
+			return
+		},
 		generator: fft_goldilocks.Generator,
 		mulGen:    fft_goldilocks.GeneratorFullMultiplicativeGroup,
 	})
@@ -406,8 +470,16 @@ func init() {
 		fields: func(d *D) (uint64, [5]E) {
 			return d.Cardinality, [5]E{d.CardinalityInv, d.Generator, d.GeneratorInv, d.FrMultiplicativeGen, d.FrMultiplicativeGenInv}
 		},
-		writeTo:   func(d *D, w io.Writer) (int64, error) { return d.WriteTo(w) },
-		readFrom:  func(r io.Reader) (*D, int64, error) { d := new(D); n, err := d.ReadFrom(r); return d, n, err },
+		writeTo:  func(d *D, w io.Writer) (int64, error) { return d.WriteTo(w) },
+		readFrom: func(r io.Reader) (*D, int64, error) { d := new(D); n, err := d.ReadFrom(r); return d, n, err },
+		readInto: func(d *D, r io.Reader) (int64, error) { return d.ReadFrom(r) },
+		tables: func(d *D) (ct, cti []E, tw, twi [][]E) {
+			ct, _ = d.CosetTable()
+			cti, _ = d.CosetTableInv()
+			tw, _ = d.Twiddles()
+			twi, _ = d.TwiddlesInv()
+			return
+		},
 		generator: fft_koalabear.Generator,
 		mulGen:    fft_koalabear.GeneratorFullMultiplicativeGroup,
 	})
@@ -449,8 +521,16 @@ func init() {
 		fields: func(d *D) (uint64, [5]E) {
 			return d.Cardinality, [5]E{d.CardinalityInv, d.Generator, d.GeneratorInv, d.FrMultiplicativeGen, d.FrMultiplicativeGenInv}
 		},
-		writeTo:   func(d *D, w io.Writer) (int64, error) { return d.WriteTo(w) },
-		readFrom:  func(r io.Reader) (*D, int64, error) { d := new(D); n, err := d.ReadFrom(r); return d, n, err },
+		writeTo:  func(d *D, w io.Writer) (int64, error) { return d.WriteTo(w) },
+		readFrom: func(r io.Reader) (*D, int64, error) { d := new(D); n, err := d.ReadFrom(r); return d, n, err },
+		readInto: func(d *D, r io.Reader) (int64, error) { return d.ReadFrom(r) },
+		tables: func(d *D) (ct, cti []E, tw, twi [][]E) {
+			ct, _ = d.CosetTable()
+			cti, _ = d.CosetTableInv()
+			tw, _ = d.Twiddles()
+			twi, _ = d.TwiddlesInv()
+			return
+		},
 		generator: fft_babybear.Generator,
 		mulGen:    fft_babybear.GeneratorFullMultiplicativeGroup,
 	})
